@@ -678,6 +678,56 @@ pub fn run(p: &Params) -> Run {
 
 /// exhaustive boundary tables: INT x INT arithmetic (overflow, MIN / -1, zero divisors) and INT x REAL comparisons
 /// (values around 2^53 and 2^63 where rounding the INT would change the answer)
+/// `array_unique` over arrays with many equal-but-not-identical and identical elements (NaN twice and with different
+/// payloads, -0.0 / 0.0, infinities, i64 extremes, NULL elements, nested arrays): correspondence with the model's
+/// `uniqueValues`, and on the implementation the meaning of "unique" itself — no two elements of the result are equal,
+/// every element of the input is equal to one of the result and vice versa, and the result is the same for every order
+/// of the input (C16: one total order consistent with equality, also for NaN)
+pub fn array_unique_cases(run: &mut Run, rng: &mut Rng, n: usize) {
+    let nan_bits: &[u64] = &[0x7ff8000000000000, 0xfff8000000000000, 0x7ff0000000000001, 0x7fffffffffffffff];
+    for _ in 0..n {
+        let (t, pool): (ValueType, Vec<Value>) = match rng.below(6) {
+            0 | 1 | 2 => {
+                let mut pool: Vec<Value> = Vec::new();
+                for _ in 0..1 + rng.below(4) { pool.push(Value::Float(Float(f64::from_bits(*rng.pick(nan_bits))))); }
+                for b in &[0x0000000000000000u64, 0x8000000000000000, 0x7ff0000000000000, 0xfff0000000000000, 0x3ff8000000000000, 0x3ff8000000000000] { if rng.chance(1, 2) { pool.push(Value::Float(Float(f64::from_bits(*b)))); } }
+                for _ in 0..rng.below(3) { pool.push(Value::Float(Float(f64::from_bits(gen_f64_bits(rng))))); }
+                (ValueType::Float, pool)
+            }
+            3 => (ValueType::Int, (0..2 + rng.below(5)).map(|_| Value::Int(*rng.pick(&[0i64, 1, 1, -1, i64::MAX, i64::MIN, 7]))).collect()),
+            4 => (ValueType::String, (0..2 + rng.below(5)).map(|_| Value::String((*rng.pick(&["a", "a", "b", "", "é", "A"])).to_owned())).collect()),
+            _ => { let t = gen_scalar_type(rng); let pool = (0..2 + rng.below(5)).map(|_| gen_value_of(rng, &t, 0)).collect(); (t, pool) }
+        };
+        let mut xs: Vec<Value> = (0..rng.below(9)).map(|_| rng.pick(&pool).clone()).collect();
+        if rng.chance(1, 4) && !xs.is_empty() { let k = rng.below(xs.len() + 1); xs.insert(k, Value::Null); }
+        let arr = Value::Array(t.clone(), xs.clone());
+        let e = call(Function::ArrayUnique, vec![lit(arr.clone())]);
+        check_expr(run, &[], &e, "unique:");
+        run.oracle_checks += 1;
+        let desc = format!("array_unique({})", arr);
+        match eval_real(&[], &e) {
+            Ev::Ok(Value::Array(_, ys)) => {
+                let dup = (0..ys.len()).any(|i| (0..i).any(|j| ys[i] == ys[j]));
+                let covers = xs.iter().all(|x| ys.iter().any(|y| y == x)) && ys.iter().all(|y| xs.iter().any(|x| y == x));
+                if dup || !covers {
+                    run.fail(desc, if dup { "array-unique-keeps-equal-elements" } else { "array-unique-loses-or-invents-elements" }, format!("result {}", Value::Array(t.clone(), ys.clone())));
+                    continue;
+                }
+                // order of the input is irrelevant
+                let mut rev = xs.clone(); rev.reverse();
+                if let Ev::Ok(Value::Array(_, zs)) = eval_real(&[], &call(Function::ArrayUnique, vec![lit(Value::Array(t.clone(), rev))])) {
+                    if zs.len() != ys.len() || !zs.iter().zip(ys.iter()).all(|(a, b)| a == b) {
+                        run.fail(desc, "array-unique-depends-on-input-order", format!("{} vs reversed input {}", Value::Array(t.clone(), ys.clone()), Value::Array(t.clone(), zs.clone())));
+                    }
+                }
+            }
+            Ev::Ok(v) => run.fail(desc, "array-unique-not-an-array", format!("gave {}", v)),
+            Ev::Err(_) => {}
+            Ev::Panic(m) => run.fail(desc, "panic:array-unique", m),
+        }
+    }
+}
+
 pub fn boundary_cases(run: &mut Run, env: &[(String, Value)], thorough: bool) {
     for x in INT_EDGES {
         for y in INT_EDGES {
